@@ -4,28 +4,36 @@ Every case really writes into a per-run temporary directory (tempfile.mkdtemp, o
 at the end) with the public writer and reads back with the public reader:
 
   hif         write_hif / read_hif                  Hypergraph, DiHypergraph, SimplicialComplex
-  json        write_json / read_json                Hypergraph, nodetype/edgetype in {None,int,str}
+  json        write_json / read_json                Hypergraph (+ SimplicialComplex: all but the class), nodetype/edgetype in {None,int,str}
   edgelist    write_edgelist / read_edgelist        delimiters " " "," ";" "|" "\\t" (+ delimiter=None), nodetype
   bipartite   write_bipartite_edgelist / read_…     + edgetype, dual
   incidence   write_incidence_matrix / read_…       incl. 1×m, n×1, 1×1
   hifcoll / jsoncoll   write_hif_collection / read_hif_collection, write_json of a list / dict / read_json
+  held        any of the first five on ONE network object: write, edit, write again (same path and another path), compare
+              with a fresh equal network
+
+Input axes beyond the network itself: trivial subclasses, integer labels held as numpy integers, labels above 2**53, float
+labels (HIF), output of library generators, path as str / pathlib.Path / os.PathLike, one large network per format and run.
 
 *Predicate on the implementation* (the statement of C11): the network read back equals the source in everything
 the statement lists for that format.  *Correspondence*: the text the implementation wrote equals what the Lean
 model (lean/XgiModel/C11/IO.lean, driver Drivers/C11.lean) generates for the same network, and the model's reader
 applied to that text gives the network the implementation's reader returns (or the same error kind); for
 JSON the ID handling (string keys, casts, collisions) is compared, for HIF the ID values.  The correspondence
-also runs on inputs *outside* the statement's domain (labels containing the delimiter or '#', padded labels,
+compares JSON documents as parsed objects (key order and the order of nodes / edges in the network read back are not
+part of the statement).  It also runs on inputs *outside* the statement's domain (labels containing the delimiter or '#', padded labels,
 empty edges, mismatched casts, hand-made files with comments / blank lines / short lines), where model and
 implementation must still agree.
 """
 import glob
 import json
 import os
+import pathlib
 import shutil
 import tempfile
 import warnings
 
+import numpy as np
 import xgi
 from xgi.exception import XGIError
 
@@ -52,6 +60,65 @@ ENCODINGS = ["utf-8", "latin-1", "cp1252", "ascii"]
 TY = {None: None, "int": int, "str": str}
 CLASSES = {"Hypergraph": xgi.Hypergraph, "DiHypergraph": xgi.DiHypergraph, "SimplicialComplex": xgi.SimplicialComplex}
 
+
+# trivial subclasses ("for all networks of each supported class" includes instances of user subclasses): a network of
+# class MyD is a directed hypergraph and must be written and read back as one (of the base class kind)
+class MyH(xgi.Hypergraph):
+    pass
+
+
+class MyD(xgi.DiHypergraph):
+    pass
+
+
+class MyS(xgi.SimplicialComplex):
+    pass
+
+
+SUBCLASSES = {"Hypergraph": MyH, "DiHypergraph": MyD, "SimplicialComplex": MyS}
+NP_INT = {"int64": np.int64, "int32": np.int32}
+# labels above 2**53 (not exactly representable as a float: a cast through float() changes them) and their neighbours
+BIG_INTS = [2 ** 60 + 1, 2 ** 64 + 3, -(2 ** 55) - 1, 2 ** 53 + 1, 10 ** 20 + 7, 2 ** 60 + 2, -(2 ** 64) - 5, 2 ** 53 + 3]
+# floats that need all 17 significant digits / have tiny or huge exponents (rounding to a few decimals, float32 or a
+# "%g"-style rendering changes them)
+FINE_FLOATS = [0.1 + 0.2, 0.1234567891, 2e-7, 2.0 ** -30, 1e300, -0.0, 1 / 3, 123456789.12345679, 5e-324, 1.7976931348623157e308]
+FLOAT_LABELS = [0.1 + 0.2, 0.1234567891, 2e-7, 2.0 ** -30, 1e300, 2.5, 1 / 3, -1.75]
+
+
+class PathLike:
+    """an os.PathLike that is neither str nor pathlib.Path"""
+
+    def __init__(self, p):
+        self._p = str(p)
+
+    def __fspath__(self):
+        return self._p
+
+
+def as_path(case, p, collection=False):
+    """the path argument in the type the case asks for: str (default) | pathlib.Path | another os.PathLike (single files only:
+    the collection writers build the member paths with an f-string, which is documented for strings and works for pathlib)"""
+    k = case.get("path")
+    if k == "pathlib":
+        return pathlib.Path(p)
+    if k == "pathlike" and not collection:
+        return PathLike(p)
+    return p
+
+
+def py(x):
+    """the label as a plain Python object: a numpy scalar equal to it is the same label (same hash, same dict key)"""
+    return x.item() if isinstance(x, np.generic) else x
+
+
+def kind_of(H):
+    """the class kind of a network (an instance of a subclass is a network of its base kind)"""
+    if isinstance(H, xgi.DiHypergraph):
+        return "DiHypergraph"
+    if isinstance(H, xgi.SimplicialComplex):
+        return "SimplicialComplex"
+    return "Hypergraph"
+
 # ----------------------------------------------------------------------------- generators
 
 
@@ -62,6 +129,8 @@ def gen_value(rng, depth=0):
         return [gen_value(rng, depth + 1) for _ in range(rng.randint(0, 3))]
     if depth < 2 and r < 0.22:
         return {rng.choice(["k", "a b", "", "é", "0"]) + str(i): gen_value(rng, depth + 1) for i in range(rng.randint(0, 2))}
+    if r < 0.42:
+        return rng.choice(FINE_FLOATS + BIG_INTS[:4])
     return rng.choice([None, True, False, 0, 1, -7, 2 ** 40, 0.5, -1.25, 1e-3, 3.0, "", "x", "red", "a b", 'q"uo\\te', "li\nne", "é日本", "1"])
 
 
@@ -78,16 +147,19 @@ def gen_attrs(rng, p=0.5):
 
 
 INT_LABELS = [lambda k: list(range(k)), lambda k: list(range(1, k + 1)), lambda k: [-i for i in range(k)],
-              lambda k: [100 + 7 * i for i in range(k)][::-1], lambda k: [10 ** i for i in range(k)]]
+              lambda k: [100 + 7 * i for i in range(k)][::-1], lambda k: [10 ** i for i in range(k)],
+              lambda k: BIG_INTS[:k], lambda k: ([5] + BIG_INTS)[:k]]
 STR_LABELS = [lambda k: ["é", "ß", "ü", "ñ", "å", "ø", "ç", "æ"][:k], lambda k: list("abcdefgh"[:k]), lambda k: ["n%d" % i for i in range(k)], lambda k: [str(10 + i) for i in range(k)],
               lambda k: ["é", "日本", "ß", "Ω", "ж", "x", "y", "z"][:k], lambda k: ["a b", "c d", "e", "f g h", "i", "j", "k", "l"][:k]]
 ODD_STR = ["x,y", "p|q", "s;t", "u\tv", "h#1", " pad", "pad ", "", "a b", "-", "1_0", "+5", "٣", "1.5", "e1"]
 
 
 def gen_labels(rng, k, kind):
-    """kind: 'int' | 'str' | 'odd' (strings that stress the text formats) | 'mixed'"""
+    """kind: 'int' | 'str' | 'odd' (strings that stress the text formats) | 'mixed' | 'float' (HIF only)"""
     if kind == "int":
         lab = rng.choice(INT_LABELS)(k)
+    elif kind == "float":
+        lab = rng.sample(FLOAT_LABELS, min(k, len(FLOAT_LABELS)))
     elif kind == "str":
         lab = rng.choice(STR_LABELS)(k)
     elif kind == "odd":
@@ -141,22 +213,36 @@ def gen_net(rng, cls="Hypergraph", node_kind=None, edge_kind=None, attrs=True, e
 
 def build_net(net):
     """the real network, through the public API only.  Attribute dicts are never passed as **kwargs (a key may be
-    spelled like a parameter): nodes and edges are created bare, then set_node_attributes / set_edge_attributes."""
+    spelled like a parameter): nodes and edges are created bare, then set_node_attributes / set_edge_attributes.
+    Flags of the description: "sub" (an instance of a trivial subclass), "np" = {"where": "members" | "all", "dtype":
+    "int64" | "int32"} (integer labels handed over as numpy integers: in the member lists only - what
+    watts_strogatz_hypergraph produces - or everywhere), "source" = [generator name, args, kwargs] (the network is the
+    output of that library generator; nodes / edges of the description are then only bookkeeping)."""
     import copy
     cls = net["cls"]
+    if net.get("source"):
+        name, args, kwargs = net["source"]
+        try:
+            return quiet(getattr(xgi, name), *args, **kwargs)
+        except Exception as ex:  # noqa
+            raise Infra(f"generator defect: xgi.{name}{tuple(args)} {kwargs}: {type(ex).__name__}: {ex}")
+    npf = net.get("np") or {}
+    nt = NP_INT.get(npf.get("dtype"))
+    conv_m = (lambda x: nt(x) if isinstance(x, int) and not isinstance(x, bool) else x) if nt else (lambda x: x)
+    conv_i = conv_m if npf.get("where") == "all" else (lambda x: x)
     try:
-        H = CLASSES[cls]()
+        H = (SUBCLASSES if net.get("sub") else CLASSES)[cls]()
         for n, _ in net["nodes"]:
-            H.add_node(n)
+            H.add_node(conv_i(n))
         with warnings.catch_warnings():
             warnings.simplefilter("ignore")
             for e, ms, _ in net["edges"]:
                 if cls == "DiHypergraph":
-                    H.add_edge((list(ms[0]), list(ms[1])), idx=e)
+                    H.add_edge(([conv_m(x) for x in ms[0]], [conv_m(x) for x in ms[1]]), idx=conv_i(e))
                 elif cls == "SimplicialComplex":
-                    H.add_simplex(list(ms), idx=e)
+                    H.add_simplex([conv_m(x) for x in ms], idx=e)
                 else:
-                    H.add_edge(list(ms), idx=e)
+                    H.add_edge([conv_m(x) for x in ms], idx=conv_i(e))
             H.set_node_attributes({n: copy.deepcopy(a) for n, a in net["nodes"] if a})
             H.set_edge_attributes({e: copy.deepcopy(a) for e, _, a in net["edges"] if a and e in H.edges})
         for k, v in net["net"].items():
@@ -169,6 +255,12 @@ def build_net(net):
     return H
 
 
+def net_of(H, **flags):
+    """description of an existing undirected network (bookkeeping for networks made by a library generator)"""
+    return dict({"cls": kind_of(H), "nodes": [[py(n), {}] for n in H.nodes],
+                 "edges": [[py(e), sorted((py(x) for x in H.edges.members(e)), key=idkey), {}] for e in H.edges], "net": {}}, **flags)
+
+
 # ----------------------------------------------------------------------------- snapshots and the predicate
 
 def jv(x):
@@ -176,14 +268,24 @@ def jv(x):
     return json.dumps(x, sort_keys=True, ensure_ascii=True, default=repr)
 
 
-def snap(H):
-    cls = type(H).__name__
-    if cls == "DiHypergraph":
-        mem = {repr(e): [sorted(map(repr, H.edges.tail(e))), sorted(map(repr, H.edges.head(e)))] for e in H.edges}
+def rp(x):
+    """identity of a label: numpy scalars count as the Python number they equal (same hash, same dict key in xgi)"""
+    return repr(py(x))
+
+
+def snap(H, source=False, fn=None, fe=None):
+    """everything the statement lists.  `source`: the network that is written - its class is its base kind (an instance of
+    a trivial subclass of DiHypergraph is a directed hypergraph); a network read back must be of exactly a base class.
+    fn / fe: casts applied to the node labels / edge IDs (the expected network under a documented cast)"""
+    cls = kind_of(H) if source else type(H).__name__
+    N = (lambda x: repr(fn(py(x)))) if fn else rp
+    E = (lambda x: repr(fe(py(x)))) if fe else rp
+    if kind_of(H) == "DiHypergraph":
+        mem = {E(e): [sorted(map(N, H.edges.tail(e))), sorted(map(N, H.edges.head(e)))] for e in H.edges}
     else:
-        mem = {repr(e): sorted(map(repr, H.edges.members(e))) for e in H.edges}
-    return {"cls": cls, "nodes": sorted(map(repr, H.nodes)), "edges": sorted(map(repr, H.edges)), "members": mem,
-            "nattr": {repr(n): jv(H.nodes[n]) for n in H.nodes}, "eattr": {repr(e): jv(H.edges[e]) for e in H.edges},
+        mem = {E(e): sorted(map(N, H.edges.members(e))) for e in H.edges}
+    return {"cls": cls, "nodes": sorted(map(N, H.nodes)), "edges": sorted(map(E, H.edges)), "members": mem,
+            "nattr": {N(n): jv(H.nodes[n]) for n in H.nodes}, "eattr": {E(e): jv(H.edges[e]) for e in H.edges},
             "net": jv(dict(H._net_attr))}
 
 
@@ -312,15 +414,41 @@ def cast_ids(ids, ty):
     return out if len(set(map(repr, out))) == len(out) else None
 
 
+NP_UNSERIALISABLE = "numpy-integer-label-not-serializable"
+
+
+def has_np_labels(H):
+    """some node label / edge ID / member is a numpy integer (np.float64 and np.str_ are float / str subclasses)"""
+    ids = list(H.nodes) + list(H.edges)
+    for e in H.edges:
+        ids += (list(H.edges.tail(e)) + list(H.edges.head(e))) if kind_of(H) == "DiHypergraph" else list(H.edges.members(e))
+    return any(isinstance(x, np.integer) for x in ids)
+
+
+def model_free(case, H):
+    """cases the Lean model has no answer for (predicate only): numpy / float labels, subclass instances, generator output,
+    the large network of the run"""
+    net = case["net"]
+    if net.get("np") or net.get("sub") or net.get("source") or case.get("large"):
+        return True
+    return any(isinstance(py(x), float) for x in list(H.nodes) + list(H.edges))
+
+
 def ev_hif(case, tmp):
     net = case["net"]
     H = build_net(net)
     p = os.path.join(tmp, "n.hif.json")
-    xgi.write_hif(H, p)
-    a = snap(H)
+    try:
+        xgi.write_hif(H, as_path(case, p))
+    except Exception as ex:  # noqa
+        if isinstance(ex, TypeError) and "is not JSON serializable" in str(ex) and has_np_labels(H):
+            return [(NP_UNSERIALISABLE, f"write_hif raised {type(ex).__name__}: {ex} (the labels are integers: numpy integers equal to "
+                                        f"{sorted({rp(n) for n in H.nodes})[:6]})")], None, None
+        return [("write-raises:" + net["cls"], f"write_hif raised {type(ex).__name__}: {ex}")], None, None
+    a = snap(H, source=True)
     nty, ety = case.get("nodetype"), case.get("edgetype")
     try:
-        R = xgi.read_hif(p, nodetype=TY[nty], edgetype=TY[ety])
+        R = xgi.read_hif(as_path(case, p), nodetype=TY[nty], edgetype=TY[ety])
     except Exception as ex:  # noqa
         if isinstance(ex, TypeError) and "got multiple values for argument" in str(ex):
             return [(KWARG_CLASH + ":" + net["cls"], f"read_hif raised {type(ex).__name__}: {ex} (attribute dict forwarded as **kwargs)")], None, None
@@ -330,12 +458,20 @@ def ev_hif(case, tmp):
     if case.get("real_cast"):
         # a cast that changes the IDs (digit strings -> int, ints -> str): the same network under the cast IDs
         cn, ce = (TY[nty] or (lambda x: x)), (TY[ety] or (lambda x: x))
-        want = snap(build_net(relabel_net(net, cn, ce)))
+        want = snap(build_net(relabel_net(net, cn, ce)), source=True)
         fails = [("cast-" + c + ":" + net["cls"], d) for c, d in same_network(want, b)]
         STAT["predicate:hif:real-cast"] += 1
         return fails, None, None
     fails = [(c + ":" + net["cls"], d) for c, d in same_network(a, b)]
     STAT["predicate:hif:" + net["cls"]] += 1
+    for flag in ("np", "sub", "source", "path"):
+        src = case if flag == "path" else net
+        if src.get(flag):
+            STAT["predicate:hif:" + flag + "=" + (str(src[flag]) if flag == "path" else "yes")] += 1
+    if case.get("large"):
+        STAT["predicate:hif:large"] += 1
+    if model_free(case, H):
+        return fails, None, None
     doc = json.loads(read_text(p))
     JSON_LAYER["hif:documents"] += 1
     JSON_LAYER["hif:loads(dumps(d))==d"] += (doc == plain(xgi.to_hif_dict(H)))
@@ -366,26 +502,45 @@ def ev_json(case, tmp):
     H = build_net(net)
     p = os.path.join(tmp, "n.json")
     nty, ety = case.get("nodetype"), case.get("edgetype")
-    req = {"f": "json", "net": {"nodes": [n for n, _ in net["nodes"]], "edges": [[e, list(H.edges.members(e))] for e in H.edges]},
+    sc = net["cls"] == "SimplicialComplex"
+    # write_json accepts a SimplicialComplex explicitly; read_json is documented to return a Hypergraph: everything but the
+    # class is judged for it (the statement's second sentence is about undirected hypergraphs = class Hypergraph)
+    skip = ("class",) if sc else ()
+    free = model_free(case, H) or sc
+    req = {"f": "json", "net": {"nodes": [py(n) for n in H.nodes], "edges": [[py(e), [py(x) for x in H.edges.members(e)]] for e in H.edges]},
            "nodetype": nty, "edgetype": ety}
-    nodes, eids = [n for n, _ in net["nodes"]], [e for e, _, _ in net["edges"]]
+    nodes, eids = [py(n) for n in H.nodes], [py(e) for e in H.edges]
     collide = len({str(n) for n in nodes}) != len(nodes) or len({str(e) for e in eids}) != len(eids)
     in_domain = case.get("in_domain", True) and (collide or (cast_matches(nodes, nty) if nodes else True) and (cast_matches(eids, ety) if eids else True))
+    sc_str = None
+    if sc and not collide:
+        # a complex mixes explicit simplex IDs (strings here) with automatic face IDs (ints): read without an edge cast, every
+        # edge ID comes back as its string form (the documented cast) - the same network under str() of the edge IDs
+        in_domain = case.get("in_domain", True) and (cast_matches(nodes, nty) if nodes else True) and ety is None
+        sc_str = str
     fails = []
     STAT["predicate:json" + (":collision" if collide else "")] += bool(in_domain)
+    for flag in ("np", "sub", "source"):
+        if net.get(flag):
+            STAT["predicate:json:" + flag] += bool(in_domain)
+    STAT["predicate:json:SimplicialComplex"] += bool(in_domain and sc)
+    if case.get("path"):
+        STAT["predicate:json:path=" + case["path"]] += bool(in_domain)
     try:
-        quiet(xgi.write_json, H, p)
+        quiet(xgi.write_json, H, as_path(case, p))
         wout = "ok"
     except Exception as ex:  # noqa
         wout = outcome(ex)
     if collide:
         if wout != "err:lib":
             fails.append(("collision-not-refused", f"IDs collide after str() but write_json gave {wout}"))
-        return fails, [req], [{"out": "ok", "write": {"out": wout} if wout != "ok" else "ok", "keys": None, "read": None}]
+        return (fails, None, None) if free else (fails, [req], [{"out": "ok", "write": {"out": wout} if wout != "ok" else "ok", "keys": None, "read": None}])
+    if wout == "ok" and not os.path.exists(p):
+        wout = "nothing-written"
     if wout != "ok":
         if in_domain:
-            fails.append(("write-raises", f"write_json raised {wout}"))
-        return fails, [req], [{"out": "ok", "write": {"out": wout}, "keys": None, "read": None}]
+            fails.append(("write-raises", f"write_json gave {wout}"))
+        return (fails, None, None) if free or wout == "nothing-written" else (fails, [req], [{"out": "ok", "write": {"out": wout}, "keys": None, "read": None}])
     doc = json.loads(read_text(p))
     keys = list(doc["node-data"].keys())
     JSON_LAYER["json:documents"] += 1
@@ -393,16 +548,16 @@ def ev_json(case, tmp):
     reqs, wants = [req], None
     full = None
     try:
-        R = quiet(xgi.read_json, p, nodetype=TY[nty], edgetype=TY[ety])
+        R = quiet(xgi.read_json, as_path(case, p), nodetype=TY[nty], edgetype=TY[ety])
         res = net_result(R)
         if in_domain:
-            fails += same_network(snap(H), snap(R))
+            fails += same_network(snap(H, source=True, fe=sc_str), snap(R), skip=skip)
         elif case.get("real_cast"):
             cn, ce = cast_ids(nodes, nty), cast_ids(eids, ety)
             if cn is not None and ce is not None:
                 # documented casts that change the IDs (ints without a cast come back as str, digit strings under int as int)
                 fn, fe = (TY[nty] or str), (TY[ety] or str)
-                fails += [("cast-" + c, d) for c, d in same_network(snap(build_net(relabel_net(net, fn, fe))), snap(R))]
+                fails += [("cast-" + c, d) for c, d in same_network(snap(build_net(relabel_net(net, fn, fe)), source=True), snap(R), skip=skip)]
                 STAT["predicate:json:real-cast"] += 1
         full = {"out": "ok", "rep": L10.hdict_rep(doc), "rt": L10.snapshot(R)}
     except Exception as ex:  # noqa
@@ -414,12 +569,29 @@ def ev_json(case, tmp):
         elif in_domain:
             fails.append(("read-raises", f"read_json raised {type(ex).__name__}: {ex}"))
     wants = [{"out": "ok", "write": "ok", "keys": keys, "read": res}]
+    if free:
+        return fails, None, None
     if full is not None:
         anet = L10.snapshot(H)
         c10case = {"f": "hypergraph_dict", "net": anet, "nodetype": NT10[nty], "edgetype": NT10[ety]}
         reqs.append(dict(c10case, f="jsonfull"))
         wants.append(dict(full, _c10=c10case))
     return fails, reqs, wants
+
+
+def flag_stats(fmt, case, dom):
+    """how often the predicate was evaluated on the widened input families, per format"""
+    net = case["net"]
+    for flag in ("np", "sub", "source"):
+        if net.get(flag):
+            STAT[f"predicate:{fmt}:{flag}"] += bool(dom)
+    if case.get("path"):
+        STAT[f"predicate:{fmt}:path={case['path']}"] += bool(dom)
+    if case.get("large"):
+        STAT[f"predicate:{fmt}:large"] += bool(dom)
+    ids = [x for x, _ in net["nodes"]]
+    if any(isinstance(x, int) and abs(x) > 2 ** 53 for x in ids):
+        STAT[f"predicate:{fmt}:label>2**53"] += bool(dom)
 
 
 def _text_domain(case, labels_n, labels_e=()):
@@ -435,14 +607,14 @@ def ev_edgelist(case, tmp):
     net = case["net"]
     H = build_net(net)
     p = os.path.join(tmp, "el.txt")
-    members = [list(H.edges.members(e)) for e in H.edges]
+    members = [[py(x) for x in H.edges.members(e)] for e in H.edges]
     enc = case.get("encoding", "utf-8")
     ekw = {"encoding": enc} if "encoding" in case else {}
     U = using_of(case)
     ukw = {"create_using": U} if case.get("using") else {}
     if "encoding" in case and not encodable([x for ms in members for x in ms] + [case["delim"]], enc):
         enc, ekw = "utf-8", {}
-    xgi.write_edgelist(H, p, delimiter=case["delim"], **ekw)
+    xgi.write_edgelist(H, as_path(case, p), delimiter=case["delim"], **ekw)
     text = case.get("text") if case.get("text") is not None else read_text(p, enc)
     if case.get("text") is not None:
         write_text(p, text, enc)
@@ -454,8 +626,9 @@ def ev_edgelist(case, tmp):
     dom = (case.get("text") is None and _text_domain(case, used) and all(ms for ms in members) and cast_matches(used, case.get("nodetype")))
     fails = []
     STAT["predicate:edgelist:nodetype=" + str(case.get("nodetype"))] += bool(dom)
+    flag_stats("edgelist", case, dom)
     try:
-        R = xgi.read_edgelist(p, comments=cm, delimiter=case["rdelim"], nodetype=TY[case.get("nodetype")], **ekw, **ukw)
+        R = xgi.read_edgelist(as_path(case, p), comments=cm, delimiter=case["rdelim"], nodetype=TY[case.get("nodetype")], **ekw, **ukw)
         res = net_result(R, sort_nodes=True)
         if dom:
             got = [sorted(map(repr, R.edges.members(e))) for e in R.edges]
@@ -480,14 +653,14 @@ def ev_bipartite(case, tmp):
     net = case["net"]
     H = build_net(net)
     p = os.path.join(tmp, "bip.txt")
-    edges = [[e, list(H.edges.members(e))] for e in H.edges]
+    edges = [[py(e), [py(x) for x in H.edges.members(e)]] for e in H.edges]
     enc = case.get("encoding", "utf-8")
     ekw = {"encoding": enc} if "encoding" in case else {}
     U = using_of(case)
     ukw = {"create_using": U} if case.get("using") else {}
     if "encoding" in case and not encodable([x for e, ms in edges for x in [e] + ms] + [case["delim"]], enc):
         enc, ekw = "utf-8", {}
-    xgi.write_bipartite_edgelist(H, p, delimiter=case["delim"], **ekw)
+    xgi.write_bipartite_edgelist(H, as_path(case, p), delimiter=case["delim"], **ekw)
     text = case.get("text") if case.get("text") is not None else read_text(p, enc)
     if case.get("text") is not None:
         write_text(p, text, enc)
@@ -505,8 +678,9 @@ def ev_bipartite(case, tmp):
            and cast_matches(used_n, ety if dual else nty) and cast_matches(used_e, nty if dual else ety))
     fails = []
     STAT["predicate:bipartite" + (":dual" if dual else "")] += bool(dom)
+    flag_stats("bipartite", case, dom)
     try:
-        R = xgi.read_bipartite_edgelist(p, comments=cm, delimiter=case["rdelim"], nodetype=TY[nty], edgetype=TY[ety], dual=dual, **ekw, **ukw)
+        R = xgi.read_bipartite_edgelist(as_path(case, p), comments=cm, delimiter=case["rdelim"], nodetype=TY[nty], edgetype=TY[ety], dual=dual, **ekw, **ukw)
         res = net_result(R)
         if dom:
             want = sorted((repr(e), repr(n)) if dual else (repr(n), repr(e)) for e, ms in edges for n in ms)
@@ -543,7 +717,7 @@ def ev_incidence(case, tmp):
     if "encoding" in case and not encodable([case["delim"]], enc):
         enc, ekw = "utf-8", {}
     if case.get("text") is None:
-        xgi.write_incidence_matrix(H, p, delimiter=case["delim"], **ekw)
+        xgi.write_incidence_matrix(H, as_path(case, p), delimiter=case["delim"], **ekw)
         text = read_text(p, enc)
     else:
         text = case["text"]
@@ -551,16 +725,17 @@ def ev_incidence(case, tmp):
     cm = case.get("comments", "#")
     req = {"f": "incidence", "delim": case["delim"], "rdelim": case["rdelim"], "comments": cm, "text": text}
     if case.get("text") is None:
-        req["net"] = {"nodes": nodes, "edges": [[e, list(H.edges.members(e))] for e in eids]}
+        req["net"] = {"nodes": [py(x) for x in nodes], "edges": [[py(e), [py(x) for x in H.edges.members(e)]] for e in eids]}
     # the tokens are '0'/'1' floats in 'e' notation: any delimiter / comment token made of other characters is admissible
     tokchars = set("01.e+")
     dom = (case.get("text") is None and n >= 1 and m >= 1 and case.get("in_domain", True)
            and (case["rdelim"] == case["delim"] or m == 1 or (case["rdelim"] is None and case["delim"].isspace()))
            and not (tokchars & set(case["delim"])) and (cm is None or not ((tokchars | set(case["delim"])) & set(cm))))
     fails = []
+    flag_stats("incidence", case, dom)
     STAT["predicate:incidence" + (":1xm" if n == 1 and m > 1 else ":nx1" if m == 1 and n > 1 else ":1x1" if n == 1 and m == 1 else "")] += bool(dom)
     try:
-        R = quiet(xgi.read_incidence_matrix, p, comments=cm, delimiter=case["rdelim"], **ekw, **ukw)
+        R = quiet(xgi.read_incidence_matrix, as_path(case, p), comments=cm, delimiter=case["rdelim"], **ekw, **ukw)
         res = net_result(R)
         if dom:
             want = sorted((i, j) for j, e in enumerate(eids) for i, x in enumerate(nodes) if x in H.edges.members(e))
@@ -617,9 +792,9 @@ def ev_collection(case, tmp):
     fails = []
     try:
         if kind == "hifcoll":
-            xgi.write_hif_collection(arg, d, collection_name=cname)
+            xgi.write_hif_collection(arg, as_path(case, d, collection=True), collection_name=cname)
         else:
-            quiet(xgi.write_json, arg, d, collection_name=cname)
+            quiet(xgi.write_json, arg, as_path(case, d, collection=True), collection_name=cname)
     except Exception as ex:  # noqa
         return [("collection-raises", f"writing raised {type(ex).__name__}: {ex}")], None, None
     if sorted(os.listdir(d)) != expect:
@@ -629,9 +804,9 @@ def ev_collection(case, tmp):
         return fails + [("collection-raises", f"{len(infos)} collection information files in {sorted(os.listdir(d))}")], None, None
     try:
         if kind == "hifcoll":
-            R = xgi.read_hif_collection(infos[0], nodetype=TY[case.get("nodetype")], edgetype=TY[case.get("edgetype")])
+            R = xgi.read_hif_collection(as_path(case, infos[0], collection=True), nodetype=TY[case.get("nodetype")], edgetype=TY[case.get("edgetype")])
         else:
-            R = quiet(xgi.read_json, infos[0], nodetype=TY[case.get("nodetype")], edgetype=TY[case.get("edgetype")])
+            R = quiet(xgi.read_json, as_path(case, infos[0], collection=True), nodetype=TY[case.get("nodetype")], edgetype=TY[case.get("edgetype")])
     except Exception as ex:  # noqa
         if isinstance(ex, TypeError) and "got multiple values for argument" in str(ex):
             return fails + [(KWARG_CLASH, f"reading the collection raised {type(ex).__name__}: {ex}")], None, None
@@ -640,17 +815,197 @@ def ev_collection(case, tmp):
     if not isinstance(R, dict) or sorted(R.keys()) != sorted(keys):
         return fails + [("collection-keys", f"wrote members {keys} read {sorted(R.keys()) if isinstance(R, dict) else type(R).__name__}")], None, None
     for k, H, net in zip(keys, Hs, nets):
-        want = snap(H)
+        want = snap(H, source=True)
         if case.get("real_cast"):
             # casts that change the IDs, through read_hif_collection: the same network under the cast IDs
-            want = snap(build_net(relabel_net(net, TY[nty] or (lambda x: x), TY[ety] or (lambda x: x))))
+            want = snap(build_net(relabel_net(net, TY[nty] or (lambda x: x), TY[ety] or (lambda x: x))), source=True)
             STAT["predicate:" + kind + ":real-cast"] += 1
-        for c, det in same_network(want, snap(R[k])):
-            fails.append((f"collection-member-{c}:" + type(H).__name__, f"member {k} (nodetype={nty}, edgetype={ety}): {det}"))
+        skip = ("class",) if (kind == "jsoncoll" and net["cls"] == "SimplicialComplex") else ()
+        for c, det in same_network(want, snap(R[k]), skip=skip):
+            fails.append((f"collection-member-{c}:" + kind_of(H), f"member {k} (nodetype={nty}, edgetype={ety}): {det}"))
     return fails, None, None
 
 
-EVAL = {"hif": ev_hif, "json": ev_json, "edgelist": ev_edgelist, "bipartite": ev_bipartite, "incidence": ev_incidence,
+# ----------------------------------------------------------------------------- held objects: write, edit, write again
+
+def apply_edit(H, ed):
+    """one edit of a held network through the public API (JSON-able description)"""
+    k = kind_of(H)
+    with warnings.catch_warnings():
+        warnings.simplefilter("ignore")
+        if ed[0] == "swap":          # count-preserving: one edge out, another one in
+            _, old, new, ms = ed
+            H.remove_edge(old)
+            H.add_edge((list(ms[0]), list(ms[1])) if k == "DiHypergraph" else list(ms), idx=new)
+        elif ed[0] == "attr":        # count-preserving: an attribute value changes
+            _, what, i, key, val = ed
+            if what == "node":
+                H.set_node_attributes({i: {key: val}})
+            elif what == "edge":
+                H.set_edge_attributes({i: {key: val}})
+            else:
+                H[key] = val
+        elif ed[0] == "grow":        # ordinary: a new node and a new edge
+            _, n, e, ms = ed
+            H.add_node(n)
+            if k == "DiHypergraph":
+                H.add_edge((list(ms), [n]), idx=e)
+            elif k == "SimplicialComplex":
+                H.add_simplex(list(ms) + [n], idx=e)
+            else:
+                H.add_edge(list(ms) + [n], idx=e)
+        else:
+            raise Infra(f"unknown edit {ed}")
+
+
+def held_io(case, which):
+    """(write(H, path), read(path) -> comparable summary, expected(H) -> the same summary from the network itself) for the
+    format of a held-object case; which = 0: the case's options, 1: another option tuple (text formats: another delimiter)"""
+    via = case["via"]
+    nty, ety = TY[case.get("nodetype")], TY[case.get("edgetype")]
+    d = case.get("delim") if which == 0 else case.get("delim2")
+    if via == "hif":
+        return (lambda H, p: xgi.write_hif(H, p), lambda p: snap(xgi.read_hif(p)), lambda H: snap(H, source=True))
+    if via == "json":
+        return (lambda H, p: quiet(xgi.write_json, H, p), lambda p: snap(quiet(xgi.read_json, p, nodetype=nty, edgetype=ety)),
+                lambda H: snap(H, source=True))
+    if via == "edgelist":
+        return (lambda H, p: xgi.write_edgelist(H, p, delimiter=d),
+                lambda p: [sorted(map(rp, ms)) for ms in xgi.read_edgelist(p, delimiter=d, nodetype=nty).edges.members()],
+                lambda H: [sorted(map(rp, ms)) for ms in H.edges.members()])
+    if via == "bipartite":
+        def rd(p):
+            R = xgi.read_bipartite_edgelist(p, delimiter=d, nodetype=nty, edgetype=ety)
+            return sorted((rp(n), rp(e)) for e in R.edges for n in R.edges.members(e))
+        return (lambda H, p: xgi.write_bipartite_edgelist(H, p, delimiter=d), rd,
+                lambda H: sorted((rp(n), rp(e)) for e in H.edges for n in H.edges.members(e)))
+    if via == "incidence":
+        def rd(p):
+            R = quiet(xgi.read_incidence_matrix, p, delimiter=d)
+            return sorted((x, e) for e in R.edges for x in R.edges.members(e))
+
+        def ex(H):
+            nodes, eids = list(H.nodes), list(H.edges)
+            return sorted((i, j) for j, e in enumerate(eids) for i, x in enumerate(nodes) if x in H.edges.members(e))
+        return (lambda H, p: xgi.write_incidence_matrix(H, p, delimiter=d), rd, ex)
+    raise Infra(f"held case without a format: {case}")
+
+
+def ev_held(case, tmp):
+    """HELD OBJECT: write H; edit H (round 1 count-preserving, round 2 ordinary); after every round write H again to the same
+    path (same options) and to another path (another option tuple), and a FRESH equal network to a third path; every file
+    must read back as the network as it is now.  A writer that remembers anything about the object between calls (a memo
+    invalidated on counts, on identity, or never) fails the first two and passes the third."""
+    net, via = case["net"], case["via"]
+    H = build_net(net)
+    p1, p2, p3 = (os.path.join(tmp, f"held{i}.{via}") for i in (1, 2, 3))
+    for p in (p1, p2, p3):
+        if os.path.exists(p):
+            os.remove(p)
+    def safe(fn, what):
+        def g(*a):
+            try:
+                return fn(*a)
+            except Infra:
+                raise
+            except Exception as ex:  # noqa
+                return f"{what} raised {type(ex).__name__}: {ex}"
+        return g
+    w0, r0, x0 = held_io(case, 0)
+    w1, r1, x1 = held_io(case, 1)
+    w0, w1, r0, r1 = safe(w0, "the writer"), safe(w1, "the writer"), safe(r0, "the reader"), safe(r1, "the reader")
+    fails = []
+    w0(H, p1)
+    w1(H, p2)
+    done = []
+    for rnd, edits in enumerate(case["edits"]):
+        try:
+            for ed in edits:
+                apply_edit(H, ed)
+            done += edits
+            F = build_net(net)
+            for ed in done:
+                apply_edit(F, ed)
+        except Infra:
+            raise
+        except Exception as ex:  # noqa
+            raise Infra(f"generator defect: edit {edits} on {net}: {type(ex).__name__}: {ex}")
+        tag = "count-preserving-edit" if rnd == 0 else "edit"
+        STAT[f"predicate:held:{via}:{tag}"] += 1
+        w0(F, p3)
+        want = x0(F)
+        fresh = r0(p3)
+        if fresh != want or x0(H) != want:
+            fails.append(("edited-network-differs", f"{via}: a fresh network equal to the edited one reads back as {str(fresh)[:200]} instead of {str(want)[:200]}"))
+            break
+        w0(H, p1)
+        w1(H, p2)
+        got1, got2 = r0(p1), r1(p2)
+        if got1 != want:
+            fails.append((f"stale-after-{tag}:same-path", f"{via}: after {edits} the held network written again to the same path reads back as "
+                                                           f"{str(got1)[:200]}; a fresh equal network gives {str(want)[:200]}"))
+        if got2 != x1(F):
+            fails.append((f"stale-after-{tag}:other-path", f"{via}: after {edits} the held network written to another path"
+                                                            f"{' with delimiter ' + repr(case.get('delim2')) if case.get('delim2') else ''} reads back as "
+                                                            f"{str(got2)[:200]}; a fresh equal network gives {str(x1(F))[:200]}"))
+    return fails, None, None
+
+
+def held_cases(rng, n):
+    out = []
+    tries = 0
+    while len(out) < n and tries < 20 * n + 20:
+        tries += 1
+        via = rng.choice(["hif", "hif", "json", "edgelist", "bipartite", "incidence"])
+        text = via in ("edgelist", "bipartite", "incidence")
+        cls = rng.choice(["Hypergraph", "DiHypergraph", "SimplicialComplex"]) if via == "hif" else "Hypergraph"
+        nk, ek = rng.choice(["int", "str"]), rng.choice(["int", "str"])
+        net = gen_net(rng, cls, node_kind=nk, edge_kind=ek, attrs=not text, empty_edges=False, isolated=not text or via == "incidence",
+                      max_nodes=5, max_edges=4)
+        labs = [x for x, _ in net["nodes"]]
+        eids = [e for e, _, _ in net["edges"]]
+        if not labs or (text and not eids):
+            continue
+        case = {"fmt": "held", "via": via, "net": net}
+        good = {"int": "int", "str": None}
+        if via in ("json", "edgelist", "bipartite"):
+            case["nodetype"] = good[nk]
+        if via in ("json", "bipartite"):
+            case["edgetype"] = good[ek]
+        if text:
+            case["delim"], case["delim2"] = rng.sample([",", ";", "|", "\t", " "], 2)
+        new_n = (max(labs) + 1) if nk == "int" else "zq"
+        new_e = (max([e for e in eids if isinstance(e, int)] + [0]) + 17) if (ek == "int" and cls != "SimplicialComplex") else "zz_e"
+        new_e2 = (new_e + 1) if isinstance(new_e, int) else "zz_f"
+        if text and not all(label_ok(x, d) for x in labs + [new_n] + (eids + [new_e, new_e2] if via == "bipartite" else []) for d in (case["delim"], case["delim2"])):
+            continue
+        r1 = []
+        if eids and cls != "SimplicialComplex":
+            old = rng.choice(eids)
+            oldms = next(ms for e, ms, _ in net["edges"] if e == old)
+            k = rng.randint(1, min(3, len(labs)))
+            ms = rng.sample(labs, k)
+            if cls == "DiHypergraph":
+                ms = [ms[:1], ms[1:]]
+            if sorted(map(repr, (ms[0] + ms[1]) if cls == "DiHypergraph" else ms)) != sorted(map(repr, (oldms[0] + oldms[1]) if cls == "DiHypergraph" else oldms)) or via in ("hif", "json", "bipartite"):
+                r1.append(["swap", old, new_e, ms])
+        if not text:
+            what = rng.choice(["node", "net"] + (["edge"] if eids else []))
+            i = rng.choice(labs) if what == "node" else (rng.choice(eids) if what == "edge" else None)
+            r1.append(["attr", what, i, rng.choice(["weight", "color", "fresh"]), rng.choice([0.1 + 0.2, "changed", 7, [1, 2], None])])
+        if not r1:
+            continue
+        r2 = [["grow", new_n, new_e2, rng.sample(labs, rng.randint(1, min(2, len(labs))))]]
+        case["edits"] = [r1, r2]
+        out.append(case)
+    return out
+
+
+def site_of(case):
+    return SITE[case["via"] if case["fmt"] == "held" else case["fmt"]]
+
+
+EVAL = {"held": ev_held, "hif": ev_hif, "json": ev_json, "edgelist": ev_edgelist, "bipartite": ev_bipartite, "incidence": ev_incidence,
         "hifcoll": ev_collection, "jsoncoll": ev_collection}
 SITE = {"hif": "read_hif", "json": "read_json", "edgelist": "read_edgelist", "bipartite": "read_bipartite_edgelist",
         "incidence": "read_incidence_matrix", "hifcoll": "read_hif_collection", "jsoncoll": "read_json"}
@@ -682,6 +1037,8 @@ def _variants(case):
                 c = copy.deepcopy(case); c["nets"][i] = v["net"]; yield c
         return
     net = case["net"]
+    if net.get("source") or case["fmt"] == "held":
+        return        # the network is what the library generator returned / the edits refer to the network as it is
     di = net["cls"] == "DiHypergraph"
     for i in range(len(net["edges"])):
         c = copy.deepcopy(case); del c["net"]["edges"][i]; yield c
@@ -749,6 +1106,89 @@ def fit_options(rng, case):
         del case["encoding"]
 
 
+def input_axes(rng, case, np_ok=True, sub_ok=True):
+    """argument-type / class / label-representation axes the statement quantifies over implicitly: the path as str /
+    pathlib.Path / another os.PathLike, an instance of a trivial subclass, integer labels held as numpy integers"""
+    r = rng.random()
+    if r < 0.2:
+        case["path"] = "pathlib"
+    elif r < 0.3:
+        case["path"] = "pathlike"
+    nets = case.get("nets") or [case["net"]]
+    for net in nets:
+        if sub_ok and rng.random() < 0.12:
+            net["sub"] = True
+        if np_ok and rng.random() < 0.15:
+            ids = [x for x, _ in net["nodes"]] + [e for e, _, _ in net["edges"]]
+            ints = [x for x in ids if isinstance(x, int) and not isinstance(x, bool)]
+            if ints:
+                dt = rng.choice(["int64", "int64", "int32"])
+                if all(abs(x) < (2 ** 31 if dt == "int32" else 2 ** 63) for x in ints):
+                    net["np"] = {"where": rng.choice(["members", "all"]), "dtype": dt}
+    return case
+
+
+GENERATOR_SOURCES = [
+    # library generators whose output holds numpy integers in the member sets (rewired edges of the Watts-Strogatz model)
+    lambda rng: ["watts_strogatz_hypergraph", [rng.choice([6, 7, 8]), 2, 2, 2, 0.5], {"seed": rng.randint(0, 10 ** 6)}],
+    lambda rng: ["watts_strogatz_hypergraph", [6, 3, 2, 1, 0.8], {"seed": rng.randint(0, 10 ** 6)}],
+    lambda rng: ["random_hypergraph", [6, [0.3, 0.05]], {"seed": rng.randint(0, 10 ** 6)}],
+    lambda rng: ["uniform_hypergraph_configuration_model", [{0: 2, 1: 2, 2: 1, 3: 1}, 2], {"seed": rng.randint(0, 10 ** 6)}],
+    lambda rng: ["ring_lattice", [7, 3, 2, 1], {}],
+]
+
+
+def source_cases(rng, n):
+    """the output of a library generator, written as it is (every format)"""
+    out = []
+    for _ in range(n):
+        src = rng.choice(GENERATOR_SOURCES)(rng)
+        with warnings.catch_warnings():
+            warnings.simplefilter("ignore")
+            H = build_net({"cls": "Hypergraph", "source": src})
+        net = net_of(H, source=src)
+        fmt = rng.choice(["hif", "hif", "json", "edgelist", "bipartite", "incidence"])
+        case = {"fmt": fmt, "net": net}
+        if fmt == "json":
+            case.update(nodetype="int", edgetype="int")
+        elif fmt != "hif":
+            case.update(delim=",", rdelim=",", nodetype="int")
+            if fmt == "bipartite":
+                case.update(edgetype="int", dual=False)
+            if fmt == "incidence" and not net["edges"]:
+                continue
+        out.append(case)
+    return out
+
+
+def large_cases(rng):
+    """REGIME: one large network per format and run - 75 nodes (some labels above 2**53), 135 parallel edges (the same
+    member set under 135 IDs) plus 10 others"""
+    out = []
+    for fmt in ["hif", "hif-di", "json", "edgelist", "bipartite", "incidence"]:
+        labs = list(range(70)) + BIG_INTS[:5]
+        rng.shuffle(labs)
+        pair = rng.sample(labs, 2)
+        edges = [[1000 + i, list(pair), ({"w": rng.choice(FINE_FLOATS)} if fmt in ("hif", "json") and i % 40 == 0 else {})] for i in range(135)]
+        edges += [[2000 + i, rng.sample(labs, rng.randint(1, 6)), {}] for i in range(10)]
+        rng.shuffle(edges)
+        if fmt == "hif-di":
+            edges = [[e, [ms[:1], ms[1:]], a] for e, ms, a in edges]
+        iso = fmt in ("hif", "hif-di", "json", "incidence")
+        used = {repr(x) for _, ms, _ in edges for x in (ms[0] + ms[1] if fmt == "hif-di" else ms)}
+        net = {"cls": "DiHypergraph" if fmt == "hif-di" else "Hypergraph", "nodes": [[x, {}] for x in labs if iso or repr(x) in used], "edges": edges, "net": {}}
+        case = {"fmt": fmt.split("-")[0], "net": net, "large": True}
+        if fmt == "json":
+            case.update(nodetype="int", edgetype="int")
+        elif fmt in ("edgelist", "bipartite", "incidence"):
+            d = rng.choice([",", ";", "|", " ", "\t"])
+            case.update(delim=d, rdelim=d, nodetype="int")
+            if fmt == "bipartite":
+                case.update(edgetype="int", dual=rng.random() < 0.5)
+        out.append(case)
+    return out
+
+
 def text_cases(rng, n, fmt):
     out = []
     for _ in range(n):
@@ -769,7 +1209,7 @@ def text_cases(rng, n, fmt):
             case["dual"] = rng.random() < 0.4
             if case["dual"] and rng.random() < 0.85:
                 case["nodetype"], case["edgetype"] = nk[ekind], nk[kind]
-        out.append(case)
+        out.append(input_axes(rng, case))
     return out
 
 
@@ -790,7 +1230,7 @@ def incidence_cases(rng, n):
         case = {"fmt": "incidence", "net": net, "delim": d, "rdelim": rd}
         option_axis(rng, case)
         fit_options(rng, case)
-        out.append(case)
+        out.append(input_axes(rng, case))
     return out
 
 
@@ -840,7 +1280,11 @@ def hif_cases(rng, n):
     out = []
     for _ in range(n):
         cls = rng.choice(["Hypergraph", "DiHypergraph", "SimplicialComplex"])
-        net = gen_net(rng, cls)
+        if rng.random() < 0.08:
+            # float labels are JSON-representable too (outside the Lean model: predicate only)
+            net = gen_net(rng, cls, node_kind="float", edge_kind=rng.choice(["int", "str", "float"]))
+        else:
+            net = gen_net(rng, cls)
         case = {"fmt": "hif", "net": net}
         ids_n = [x for x, _ in net["nodes"]]
         ids_e = [e for e, _, _ in net["edges"]]
@@ -856,7 +1300,7 @@ def hif_cases(rng, n):
                 case.update(nodetype=rng.choice(["str", None]), edgetype="str", real_cast=True)
             else:
                 case.update(net=relabel_net(net, str, str), nodetype="int", edgetype=rng.choice(["int", None]), real_cast=True)
-        out.append(case)
+        out.append(input_axes(rng, case, np_ok=not case.get("real_cast")))
     return out
 
 
@@ -864,8 +1308,13 @@ def json_cases(rng, n):
     out = []
     for _ in range(n):
         nk, ek = rng.choice(["int", "int", "str"]), rng.choice(["int", "int", "str"])
-        net = gen_net(rng, "Hypergraph", node_kind=nk, edge_kind=ek)
         good = {"int": "int", "str": rng.choice([None, "str"])}
+        if rng.random() < 0.12:
+            # write_json accepts a SimplicialComplex (everything but the class is judged; edge IDs come back as strings)
+            net = gen_net(rng, "SimplicialComplex", node_kind=nk, edge_kind="str")
+            out.append(input_axes(rng, {"fmt": "json", "net": net, "nodetype": good[nk], "edgetype": None}))
+            continue
+        net = gen_net(rng, "Hypergraph", node_kind=nk, edge_kind=ek)
         case = {"fmt": "json", "net": net, "nodetype": good[nk], "edgetype": good[ek]}
         r = rng.random()
         if r < 0.1:       # mismatched casts: correspondence only
@@ -879,7 +1328,7 @@ def json_cases(rng, n):
             ints = [x for x, _ in net["nodes"] if isinstance(x, int)]
             if ints:
                 net["nodes"].append([str(ints[0]), {}])
-        out.append(case)
+        out.append(input_axes(rng, case, np_ok=r >= 0.3))
     return out
 
 
@@ -907,6 +1356,7 @@ def collection_cases(rng, n):
             case = {"fmt": "jsoncoll", "nets": nets, "nodetype": good[nk], "edgetype": good[ek]}
         case["names"] = None if rng.random() < 0.5 else rng.choice([["first", "b2", "third_one"], ["0", "x y", "é"], [7, 8, 9]])[:k]
         case["cname"] = rng.choice(["", "", "c", "data set", "x1", "a_b", "tail_"])
+        input_axes(rng, case, np_ok=False)
         out.append(case)
     return out
 
@@ -934,8 +1384,29 @@ def corpus_cases():
 
 # ----------------------------------------------------------------------------- the run
 
+def _unordered_doc(x):
+    """a JSON object is an unordered collection of name/value pairs, and the statement does not list the order in which nodes
+    and edges appear in the network read back: documents are compared as parsed objects (key order canonicalised), the
+    networks with nodes and edges sorted by ID.  (A writer that sorts or reorders the keys of the file is not a disagreement.)"""
+    x = dict(x)
+    if isinstance(x.get("keys"), list):
+        x["keys"] = sorted(x["keys"])
+    if isinstance(x.get("read"), dict) and "nodes" in x["read"]:
+        x["read"] = dict(x["read"], nodes=sorted(x["read"]["nodes"], key=idkey), edges=sorted(x["read"]["edges"], key=lambda e: idkey(e[0])))
+    if isinstance(x.get("rep"), dict) and "node-data" in x["rep"]:
+        x["rep"] = {k: (sorted(v, key=lambda p: idkey(p[0])) if k in ("node-data", "edge-data", "edge-dict") else v) for k, v in x["rep"].items()}
+    if isinstance(x.get("rt"), dict):
+        rt = dict(x["rt"])
+        rt["nodes"] = sorted(rt["nodes"], key=idkey)
+        rt["edges"] = sorted(rt["edges"], key=lambda e: idkey(e[0]))
+        x["rt"] = rt
+    return x
+
+
 def model_compare(fmt, want, got):
     """impl result vs canonicalised model response"""
+    if fmt in ("json", "jsonfull"):
+        want, got = _unordered_doc(want), _unordered_doc(got)
     if "_c10" in want:      # whole-network HIF / JSON documents: the comparison of C10 (set-iteration order, faces of a complex)
         return C10.same(want["_c10"], {k: v for k, v in want.items() if k != "_c10"}, got)
     if fmt == "edgelist" and isinstance(got.get("read"), dict) and "nodes" in got["read"]:
@@ -969,10 +1440,10 @@ def run_cases(ctx, cases, tmp, do_model=True):
             ctx.nontrivial.add(jhash(case))
         for cls, detail in fails:
             if cls.startswith("~"):     # not a predicate failure: "explained by violation <cls> if that one was recorded"
-                maybe.append((idx, SITE[case["fmt"]], cls[1:]))
+                maybe.append((idx, site_of(case), cls[1:]))
                 continue
             failed.add(idx)
-            site = SITE[case["fmt"]]
+            site = "write_hif" if cls == NP_UNSERIALISABLE else site_of(case)
             small = case
             if (site, cls) not in _SHRUNK:          # shrink the first witness of each (site, class); later ones are only counted
                 _SHRUNK.add((site, cls))
@@ -1055,6 +1526,8 @@ def all_cases(ctx, rng, scale):
     cases += incidence_cases(rng, 30 * scale)
     cases += handmade_cases(rng, 30 * scale)
     cases += collection_cases(rng, 8 * scale)
+    cases += source_cases(rng, 2 * scale)
+    cases += held_cases(rng, 6 * scale)
     return cases
 
 
@@ -1072,7 +1545,14 @@ def run(ctx):
                 "ascii} x create_using {None, class, fresh instance, instance with content}, 1xm / nx1 / 1x1 matrices, collections (list and "
                 "dict, int / str / unicode member names, collection_name '' / 'c' / 'data set' / 'a_b' / 'tail_'; file names checked; written over "
                 "stale files of the same names; read_hif_collection with nodetype / edgetype casts that change the IDs), "
-                "hand-made files (comments, blank lines, padding, short lines, bad casts, ragged rows).  evaluations = write+read round "
+                "hand-made files (comments, blank lines, padding, short lines, bad casts, ragged rows); widened input families: integer "
+                "labels above 2**53, float labels (HIF), integer labels as numpy int64 / int32 (members only or everywhere), attribute "
+                "values with 17 significant digits / tiny and huge exponents / ints above 2**64, instances of trivial subclasses, a "
+                "SimplicialComplex through write_json, output of library generators (watts_strogatz_hypergraph, random_hypergraph, "
+                "uniform_hypergraph_configuration_model, ring_lattice) written as it is, the path as str / pathlib.Path / os.PathLike, "
+                "one large network per format and run (75 nodes, 135 parallel edges, labels above 2**53), held objects (write, "
+                "count-preserving edit, write again to the same and another path with another delimiter, ordinary edit, again).  "
+                "evaluations = write+read round "
                 "trips; non-trivial = distinct case whose network has an edge with >= 2 members")
     tmp = tempfile.mkdtemp(prefix="xgi-c11-")
     STAT.clear()
@@ -1083,6 +1563,7 @@ def run(ctx):
         cases = corpus_cases()
         ctx.stats["corpus_cases"] = len(cases)
         cases += all_cases(ctx, rng, ctx.n(25, 400))
+        cases += large_cases(rng)
         if not ctx.quick:
             ex = exhaustive_cases()
             cases += ex
@@ -1096,45 +1577,70 @@ def run(ctx):
             more = [c for c in all_cases(ctx, rng, ctx.n(60, 400)) if c["fmt"] in fmts or not dis]
             run_cases(ctx, more, tmp, do_model=False)
 
-        conclude(ctx, ok, dis, search)
+        # the explicit hypothesis of write_hif_read_hif_rt* / write_json_read_json_rt (JsonLayer.RoundTrip), exhibited on every
+        # document the implementation wrote in this run: json.loads(file) == to_hif_dict(H) / to_hypergraph_dict(H).  A mismatch
+        # is a broken tie (the writer changes the document, or a generated value is not JSON-faithful), never a crash: the
+        # predicate decides whether a concrete failing input exists
+        layer = []
+        for k in ("hif", "json"):
+            bad = JSON_LAYER[k + ":documents"] - JSON_LAYER[k + ":loads(dumps(d))==d"]
+            if bad:
+                layer.append(k)
+                ctx.broken.append(f"hypothesis JsonLayer.RoundTrip not exhibited: {bad} of {JSON_LAYER[k + ':documents']} {k} files of this run "
+                                  f"differ as parsed documents from the dict the converter returns (the writer changes the document, or a "
+                                  f"generated value is not preserved by json)")
+        conclude(ctx, ok, dis or layer, search)
     finally:
         shutil.rmtree(tmp, ignore_errors=True)
     ctx.extra["tmpdir_removed"] = not os.path.exists(tmp)
     for k, v in STAT.items():
         ctx.stats[k] += v
-    # the explicit hypothesis of write_hif_read_hif_rt* / write_json_read_json_rt (JsonLayer.RoundTrip), exhibited on every
-    # document the implementation wrote in this run: json.loads(file) == to_hif_dict(H) / to_hypergraph_dict(H)
     ctx.extra["json_layer_hypothesis"] = dict(JSON_LAYER)
-    for k in ("hif", "json"):
-        if JSON_LAYER[k + ":documents"] != JSON_LAYER[k + ":loads(dumps(d))==d"]:
-            ctx.broken.append(f"hypothesis JsonLayer.RoundTrip failed on {JSON_LAYER[k + ':documents'] - JSON_LAYER[k + ':loads(dumps(d))==d']} "
-                              f"{k} documents of this run (generator produced a value json does not preserve)")
-            raise Infra("generator defect: an attribute value / label that json.dumps/loads does not preserve was generated")
     un = sum(v for k, v in ctx.stats.items() if k.startswith("unmodelled:"))
     ctx.extra["model_skip_rate"] = {"unmodelled_requests": un, "compared_requests": ctx.traces,
                                     "why": "delimiters / comment tokens of several characters, labels outside int/str, int() literals "
                                            "outside plain decimals, float tokens other than np.savetxt's: predicate only"}
     ctx.assumptions = [
-        "labels are int or str (JSON-representable and inside the model); bool/float/tuple labels are not generated",
-        "attribute values are JSON-representable and JSON-faithful: None, bool, int, finite float, str, lists and str-keyed dicts of "
-        "these (tuples, NaN/inf, non-str dict keys change under json and are outside the statement); that json.loads(json.dumps(d)) == d "
+        "labels: int (incl. above 2**53 and below -2**55), str, mixed int/str; for HIF also float labels (predicate only) and integer "
+        "labels held as numpy int64 / int32 - in the member lists only (what watts_strogatz_hypergraph produces) or everywhere - which count "
+        "as the Python ints they equal (same hash, same dict key); bool labels are not generated; tuple labels are NOT generated: JSON "
+        "turns a tuple into a list (unhashable), so they are outside 'JSON-representable labels'",
+        "attribute values are JSON-representable and JSON-faithful: None, bool, int (incl. above 2**64), finite float (incl. 0.1+0.2, "
+        "0.1234567891, 2e-7, 2**-30, 5e-324, 1e300, -0.0), str, lists and str-keyed dicts of these (tuples, NaN/inf, non-str dict keys, numpy "
+        "integers as VALUES change or fail under json and are outside the statement - not generated); that json.loads(json.dumps(d)) == d "
         "holds for every document written in the run is checked (coverage.json_layer_hypothesis) - it is the explicit hypothesis "
-        "JsonLayer.RoundTrip of the theorems write_hif_read_hif_rt* / write_json_read_json_rt*",
-        "write_json/read_json: node labels of one type (all int -> nodetype=int, all str -> None/str), likewise edge IDs; colliding "
-        "string forms must be refused with XGIError; casts that change the IDs (no cast on ints -> strings, int on digit strings -> "
-        "ints) must give the same network under the cast IDs",
+        "JsonLayer.RoundTrip (forall d, loads (dumps d) = d) under which the theorems write_hif_read_hif_rt* / write_json_read_json_rt* are "
+        "thin wrappers of C10's hif_rt* / hypergraphDict_rt; Python's json does not satisfy it for tuple / None IDs and sets; the driver "
+        "instantiates the layer by the identity (idLayer)",
+        "classes: Hypergraph, DiHypergraph, SimplicialComplex and a trivial subclass of each (class MyD(xgi.DiHypergraph): pass); an instance "
+        "of a subclass counts as a network of its base class and must be read back as a network of exactly that base class",
+        "write_json/read_json: 'undirected hypergraphs' = class Hypergraph (and trivial subclasses); a DiHypergraph is excluded by the "
+        "statement's own enumeration (write_json(DiHypergraph) silently writes nothing: not judged); a SimplicialComplex is accepted by "
+        "write_json and documented to come back as a Hypergraph: everything but the class is judged (edge IDs under str()); node labels of "
+        "one type (all int -> nodetype=int, all str -> None/str), likewise edge IDs; colliding string forms must be refused with XGIError; "
+        "casts that change the IDs (no cast on ints -> strings, int on digit strings -> ints) must give the same network under the cast IDs",
         "text formats: the predicate is evaluated when every rendered label is non-empty, contains neither the delimiter, the comment "
         "token in force nor a newline and has no leading/trailing whitespace (line.strip()), no edge is empty (an edge list cannot "
         "represent an empty edge: its blank line reads back as an edge containing the label ''), the cast matches the label type, and "
         "the labels are representable in the chosen encoding; for a delimiter of several characters 'cannot occur in a label' is read "
         "as 'shares no character with any label' ('a:' + '::' + 'b' would split wrongly); outside this domain only model/"
         "implementation agreement is checked; delimiters / comment tokens of several characters are outside the Lean model "
-        "(per character): predicate only",
+        "(per character) and collections have no model at all: predicate only",
+        "incidence matrix: the file carries no labels; its tokens are floats in e-notation, so delimiters and comment tokens containing one "
+        "of the token characters '0' '1' '.' 'e' '+' are excluded by the predicate (tokchars; e.g. write_incidence_matrix(H, p, "
+        "delimiter='+') cannot be read back - not judged)",
         "encoding: ASCII-compatible encodings without byte-order mark only; utf-16 / utf-32 files cannot be read back (line-wise byte "
         "handling) - not in the statement's quantifier (delimiters and casts), recorded under coverage.observations, not judged",
         "edge list: edge IDs and isolated nodes are not part of the format (edges compared by position); bipartite edge list: "
         "isolated nodes and empty edges are not part of the format; incidence matrix: labels are not part of the format "
         "(incidences compared by position), at least one node and one edge",
+        "path arguments: str, pathlib.Path (every writer and reader) and another os.PathLike object (single files; the collection writers "
+        "build member paths with an f-string) - documented as strings, all three work on the current tree and must keep working",
+        "held objects: a network is written, edited through the public API (round 1 keeps the node and edge counts: one edge out / one in, "
+        "an attribute value; round 2 adds a node and an edge), and written again to the same path with the same options and to another "
+        "path with another delimiter; each file must read back like a fresh network with the same history",
+        "order: JSON documents are compared as parsed objects (key order is not part of a JSON object), and the order in which nodes and "
+        "edges appear in a network read back from HIF / JSON is not compared (the statement does not list it)",
         "collections: the file names '<collection_name>_<member>.json' / '<collection_name>_collection_information.json' (write_json "
         "without a collection name: '<member>.json' / 'collection_information.json') are part of what is checked",
         "SimplicialComplex: explicit simplex IDs are strings so that they cannot collide with automatic face IDs (C04's business)",
@@ -1160,7 +1666,7 @@ def replay(ctx, path):
         shutil.rmtree(tmp, ignore_errors=True)
     if fails:
         print(f"VIOLATION property={ctx.prop} replay={path}")
-        print(f"  reproduced: {SITE[case['fmt']]} {fails[0][0]}: {fails[0][1]}")
+        print(f"  reproduced: {'write_hif' if fails[0][0] == NP_UNSERIALISABLE else site_of(case)} {fails[0][0]}: {fails[0][1]}")
         return 1
     print(f"replay {path}: not reproduced on the current tree")
     return 0
